@@ -35,7 +35,7 @@ def check_case(run, case):
             run.inconc('model above enumeration cap'); return
         for L, k in sorted(ks.items()):
             got = per_level.get(L, [])
-            run.ev('levels_compared')
+            run.ev('levels_compared'); run.evals += 1
             if len(set(got)) != len(got):
                 run.violation(f'level {L}: generator repeats strings', case); return
             if k != len(set(got)) or k != len(set(ref.get(L, []))):
@@ -53,7 +53,7 @@ def check_case(run, case):
         extra = set(probs) - set(ks)
         if extra:
             run.violation(f'pcfg_omen_prob.txt lists levels {sorted(extra)} that omen_keyspace.txt does not', case); return
-        run.case()
+        run.ev('lists')
         run.add_to_set('list_shapes', f"ngram={case['ngram']},lens={sorted({len(p) for p, k in case['items']})}"[:60])
         run.sample({'items': case['items'][:6], 'ngram': case['ngram'], 'max_len': case['max_len'], 'keyspace': dict(sorted(ks.items())[:8]),
                     'prob': {k: probs[k] for k in sorted(probs)[:4]}})
